@@ -73,10 +73,15 @@ theorem compile_adisc (v : Variant) (cfg : Cfg) (call : Call) : adisc (compile v
     (repeat' split) <;> simp_all [adisc, armed, atChkClosing, atChkBoth]
 
 theorem alt_adisc (v : Variant) (a : Alt) : adisc (altSteps v a) = true := by
-  cases a; simp only [altSteps, closeSocketProg]; split <;> simp [adisc, armed, atChkClosing, atChkBoth]
+  cases a <;> simp only [altSteps, closeSocketProg] <;> (try split) <;> simp [adisc, armed, atChkClosing, atChkBoth]
+
+/-- no `closing = True` is ahead -/
+def noSC (r : List Step) : Bool :=
+  r.all fun s => match s with | .setClosing true => false | _ => true
 
 def cNext (st : Step) (r : List Step) : Bool :=
   match st with
+  | .brIfErr _ => noSC r         -- the branch after the request write belongs to no `close()`
   | .chkClosed => false          -- the repaired `_check_writable` has `ldClosing; chkBoth` instead
   | .chkClosing => false
   | .setClosed => atClear r
@@ -112,28 +117,28 @@ theorem compile_cdisc (v : Variant) (cfg : Cfg) (call : Call) (hv : v.closeAtomi
     cdisc (compile v cfg call) = true := by
   cases call <;>
     simp only [compile, sendData, closeBody, writeProg, checks, hv] <;>
-    (repeat' split) <;> simp_all [cdisc, cNext, cPrev, holds, armed, atChkClosing, atChkBoth, atClear]
+    (repeat' split) <;> simp_all [cdisc, cNext, cPrev, holds, armed, atChkClosing, atChkBoth, atClear, noSC]
 
 theorem alt_cdisc (v : Variant) (a : Alt) (hv : v.closeAtomic = true) : cdisc (altSteps v a) = true := by
-  cases a; simp [altSteps, closeSocketProg, hv, cdisc, cNext, cPrev, holds, armed, atChkClosing, atChkBoth, atClear]
+  cases a <;> simp [altSteps, closeSocketProg, hv, cdisc, cNext, cPrev, holds, armed, atChkClosing, atChkBoth, atClear]
 
 theorem alt_armed (v : Variant) (a : Alt) : armed (altSteps v a) = false := by
-  cases a; simp only [altSteps, closeSocketProg]; split <;> simp [armed]
+  cases a <;> simp only [altSteps, closeSocketProg] <;> (try split) <;> simp [armed]
 
 theorem alt_atChk (v : Variant) (a : Alt) : atChkClosing (altSteps v a) = false := by
-  cases a; simp only [altSteps, closeSocketProg]; split <;> simp [atChkClosing]
+  cases a <;> simp only [altSteps, closeSocketProg] <;> (try split) <;> simp [atChkClosing]
 
 theorem alt_atBoth (v : Variant) (a : Alt) : atChkBoth (altSteps v a) = false := by
-  cases a; simp only [altSteps, closeSocketProg]; split <;> simp [atChkBoth]
+  cases a <;> simp only [altSteps, closeSocketProg] <;> (try split) <;> simp [atChkBoth]
 
 theorem compile_atBoth (v : Variant) (cfg : Cfg) (call : Call) : atChkBoth (compile v cfg call) = false := by
   cases call <;> simp only [compile, sendData, closeBody, writeProg, checks] <;> (repeat' split) <;> simp [atChkBoth]
 
 theorem alt_atClear (v : Variant) (a : Alt) (hv : v.closeAtomic = true) : atClear (altSteps v a) = false := by
-  cases a; simp [altSteps, closeSocketProg, hv, atClear]
+  cases a <;> simp [altSteps, closeSocketProg, hv, atClear]
 
 theorem alt_closerMid (v : Variant) (a : Alt) : closerMid (altSteps v a) = false := by
-  cases a; simp only [altSteps, closeSocketProg]; split <;> simp [closerMid]
+  cases a <;> simp only [altSteps, closeSocketProg] <;> (try split) <;> simp [closerMid]
 
 theorem compile_atChk (v : Variant) (cfg : Cfg) (call : Call) : atChkClosing (compile v cfg call) = false := by
   cases call <;> simp only [compile, sendData, closeBody, writeProg, checks] <;> (repeat' split) <;> simp [atChkClosing]
